@@ -136,6 +136,7 @@ func (p *Pool) Get() interface{} {
 		}
 	}
 	PoolGets++
+	Note("pool buffer taken")
 	if n := len(p.stack); n > 0 {
 		x := p.stack[n-1]
 		p.stack = p.stack[:n-1]
@@ -174,6 +175,7 @@ func (p *Pool) Put(x interface{}) {
 			s.yield(op{kind: opPoolPut})
 		}
 	}
+	Note("pool buffer released")
 	if b, ok := x.([]byte); ok {
 		b = b[:cap(b)]
 		fill(b, Poison)
